@@ -58,6 +58,11 @@ for cname in ("redecl", "redecl_child", "neg_holder"):
         print("CTOR %s %s" % (cname, ",".join(list(inspect.signature(getattr(mod, cname).__init__).parameters)[1:])))
     except BaseException as e:  # noqa
         print("CTOR %s error:%s" % (cname, type(e).__name__))
+for tname, base in (("mid", "zeta"), ("alpha_of_mid", "mid"), ("short_label", "label"), ("tag", "short_label"), ("top_count", "base_count"), ("a_first", "z_last")):
+    try:
+        print("BASE %s %s %s" % (tname, base, "ok" if issubclass(getattr(mod, tname), getattr(mod, base)) else "wrong"))
+    except BaseException as e:  # noqa
+        print("BASE %s %s error:%s" % (tname, base, type(e).__name__))
 for tname in ("arr_neg", "lst_expr"):
     try:
         d = vars(getattr(mod, tname))
